@@ -63,6 +63,9 @@ fn main() {
                 all.extend(cells::spellings::<Q8E0>(t));
                 all.extend(cells::spellings::<Q16E1>(t));
                 all.extend(cells::spellings::<Q32E2>(t));
+                all.extend(cells::array_gaps::<Q8E0>(t));
+                all.extend(cells::array_gaps::<Q16E1>(t));
+                all.extend(cells::array_gaps::<Q32E2>(t));
             }
             cells = all.into_iter().filter(|c| c.prop == want).collect();
             if cfg.replay.is_none() && cfg.eval.is_none() && cfg.cell_filter.is_none() {
@@ -84,6 +87,9 @@ fn main() {
             all.extend(cells::spellings::<Q8E0>(t));
             all.extend(cells::spellings::<Q16E1>(t));
             all.extend(cells::spellings::<Q32E2>(t));
+            all.extend(cells::array_gaps::<Q8E0>(t));
+            all.extend(cells::array_gaps::<Q16E1>(t));
+            all.extend(cells::array_gaps::<Q32E2>(t));
             for c in all.iter_mut() {
                 c.prop = "C17";
             }
